@@ -43,7 +43,7 @@ ASSUMPTIONS = [
 TOL = 1e-8
 COND_MAX = 1e6
 GAINS = (1.0, 3.0, 1e-3)
-FS = 50.0
+FS = 51.2          # a non-integer sampling rate
 
 
 def sd_est(Yall, Yref, dt, nxseg, method, pov):
